@@ -6,6 +6,8 @@ package harness
 import (
 	"encoding/json"
 	"fmt"
+	"github.com/ovh/kmip-go/kmipclient"
+	"github.com/ovh/kmip-go/kmipserver"
 	"log/slog"
 	"os"
 	"sort"
@@ -233,6 +235,10 @@ func RunOne(t *testing.T, p *Prop, in RunInput) (out RunOutput) {
 			}
 		}()
 		synctest.Test(t, func(t *testing.T) {
+			// every run starts from a cold client and server package: whatever a run leaves in a package-level cache,
+			// table or sync.Once of kmipclient / kmipserver is gone (generated into the overlay, see instrument)
+			kmipclient.VerifResetCaches()
+			kmipserver.VerifResetCaches()
 			s := simrt.New(cfg, tape)
 			defer s.Close()
 			x := &X{S: s, T: t, Tier: in.Tier, out: &out, seen: map[string]bool{}}
